@@ -7,6 +7,14 @@ bind: seeded programs with (fail) host calls in every context (top level, functi
       inside the builtin} + parse error / compile error appended or prepended; recorded: error, depths,
       effect trace, and a battery of follow-up evaluations (every name the program binds, every function it
       defines, fresh definitions); validated by TLC.
+spec: FailPoint (prefix law: state after Fail(forms, k) = state after Ok(forms[1..k-1]); the compile-then-run
+      model with the macro journal refines it, model-checked) + FailPointTrace / NoopTrace (twin interpreters)
+bind: failpoint family: re-definitions of every kind of definition with ONE failing form at every position, in
+      every context (top level, begin, eval, call argument, lazy force, included file, sourced file, function
+      body) x failure kinds; noop family: texts that fail before they take effect (rejected at top level, the
+      ill-formed form in every nesting incl. under unquote, rejected on every nested compile route, the
+      definition itself failing in the middle or refused, host macros, the host's Apply; catalogues of special
+      forms with improper lists and of value-less forms in value positions: no panic, no partial effect).
 """
 import collections, json, os
 import vlib, flow, semflow
@@ -14,19 +22,46 @@ import vlib, flow, semflow
 PROP = "C05"
 
 
+def _devs():
+    if os.environ.get("VERIF_DEVS") is not None:      # development aid
+        return os.environ["VERIF_DEVS"]
+    return ",".join(k["id"] for k in vlib.known_findings(PROP)) or "none"
+
+
 def run():
     out = flow.Outcome(PROP)
     zv = vlib.build_zv()
+    # the prefix law and the compile-then-run model with the macro journal (design audit)
+    runs = [{"module": "MCFailPoint.tla", "cfg": "MCFailPointQuick.cfg", "timeout": 900}]
+    if vlib.tier() == "thorough":
+        runs = [{"module": "MCFailPoint.tla", "cfg": "MCFailPoint.cfg", "timeout": 1800},
+                {"module": "MCFailPoint.tla", "cfg": "MCFailPointNone.cfg", "expect": "violation", "timeout": 900}]
+    flow.mc_runs(out, runs)
     trace = os.path.join(vlib.scratch(), "fault.ndjson")
     vlib.run_zv(zv, "fault", [], trace)
     cases, v = flow.validate(out, "fault", "FaultTrace.tla", "FaultTrace.cfg", trace, zv, timeout=3000)
     # a text rejected before it runs is a stuttering step, for every kind of definition (NoopTrace)
     ntrace = os.path.join(vlib.scratch(), "noop.ndjson")
     vlib.run_zv(zv, "noop", [], ntrace)
-    ncases, nv = flow.validate(out, "noop", "NoopTrace.tla", "NoopTrace.cfg", ntrace, zv)
+    ncases, nv = flow.validate(out, "noop", "NoopTrace.tla", "NoopTrace.cfg", ntrace, zv, env={"VERIF_DEVS": _devs()})
     out.extra["rejected_text_cases"] = len(ncases)
     out.extra["rejected_text_by_definition_kind"] = dict(collections.Counter(c["def"] for c in ncases.values()))
     out.extra["rejected_text_by_variant"] = dict(collections.Counter(c["variant"] for c in ncases.values()))
+    out.extra["rejected_text_verdicts"] = dict(collections.Counter(nv[i][0] for i in ncases))
+    # failure at a known point: the state is that of the prefix (FailPointTrace)
+    ptrace = os.path.join(vlib.scratch(), "failpoint.ndjson")
+    vlib.run_zv(zv, "failpoint", [], ptrace)
+    pcases, pv = flow.validate(out, "failpoint", "FailPointTrace.tla", "FailPointTrace.cfg", ptrace, zv, env={"VERIF_DEVS": _devs()})
+    pjudged = [i for i in pcases if pv[i][0] in ("ok", "bad") or pv[i][0].startswith("known:")]
+    if len(pjudged) < len(pcases) // 2:
+        raise vlib.Inconclusive("only %d of %d failpoint cases judged" % (len(pjudged), len(pcases)))
+    out.extra["failpoint_cases"] = len(pcases)
+    out.extra["failpoint_judged"] = len(pjudged)
+    out.extra["failpoint_by_context"] = dict(collections.Counter(pcases[i]["ctx"] for i in pjudged))
+    out.extra["failpoint_by_failure_kind"] = dict(collections.Counter(pcases[i]["failkind"] for i in pjudged))
+    out.extra["failpoint_by_position"] = dict(collections.Counter(str(pcases[i]["k"]) for i in pjudged))
+    out.extra["failpoint_by_kinds_behind_the_failure"] = dict(collections.Counter(
+        d for i in pjudged for d in pcases[i]["defs"][pcases[i]["k"] - 1:]))
     kinds = collections.Counter((c["kind"], c["out"][0]) for c in cases.values())
     judged = [i for i in cases if v[i][0] in ("ok", "bad")]
     failing = set((c["text"], c["kind"], c["failAt"]) for i, c in cases.items() if c["kind"] != "none" and v[i][0] in ("ok", "bad"))
@@ -49,22 +84,28 @@ def run():
         "at most 14 failure points per program; one injected failure per case",
         "rejected texts (noop family): parse error, compile error in a nested form, macro-expansion error, jump outside a loop, "
         "each before/after/around a (re)definition of every definitional form; the twin interpreter that never saw the rejected text is the reference",
+        "failpoint family: two re-definitions and one failing form per text, positions 1..3, 8 contexts, 4 failure kinds (quick: kinds "
+        "paired with the next three of the catalogue, failure kind and with/without set-up in rotation); the twin evaluates the prefix "
+        "in the same context (text fixed by FailPointTrace); cases whose prefix or disarmed text fails in that context are skipped",
+        "the numbers of generated names (gensym, anonymous functions, loops) are masked like addresses: a generated name is an identity, "
+        "gensym promises freshness, and the counter moves with every symbol a parsed text interns",
     ])
 
 
 def replay(path):
     zv = vlib.build_zv()
     rec = json.load(open(path))
-    if rec.get("family") == "noop":
-        rp = os.path.join(vlib.scratch(), "r.ndjson")
-        open(rp, "w").write(json.dumps(rec["case"]) + "\n")
-        fresh = os.path.join(vlib.scratch(), "fresh.ndjson")
-        vlib.run_zv1(zv, "noop", ["-replay", rp], out=fresh)
-        v, _ = vlib.validate_trace("NoopTrace.tla", "NoopTrace.cfg", fresh)
-        bad = [i for i in v if v[i][0] == "bad"]
-        for i in bad:
-            print("VIOLATION property=%s replay=%s" % (PROP, path))
-        return 1 if bad else 0
+    for fam, mod in (("noop", "NoopTrace"), ("failpoint", "FailPointTrace")):
+        if rec.get("family") == fam:
+            rp = os.path.join(vlib.scratch(), "r.ndjson")
+            open(rp, "w").write(json.dumps(rec["case"]) + "\n")
+            fresh = os.path.join(vlib.scratch(), "fresh.ndjson")
+            vlib.run_zv1(zv, fam, ["-replay", rp], out=fresh)
+            v, _ = vlib.validate_trace(mod + ".tla", mod + ".cfg", fresh, env={"VERIF_DEVS": _devs()})
+            bad = [i for i in v if v[i][0] == "bad"]
+            for i in bad:
+                print("VIOLATION property=%s replay=%s" % (PROP, path))
+            return 1 if bad else 0
     rp = os.path.join(vlib.scratch(), "r.ndjson")
     open(rp, "w").write(json.dumps(rec["case"]) + "\n")
     fresh = os.path.join(vlib.scratch(), "fresh.ndjson")
